@@ -65,6 +65,14 @@ CHECKS = {
             "initial assignment of the cached flag to up to five chosen cells; all query outcomes must equal the all-cached run. "
             "Uncached cells must hold no values, run on every call, accept unhashable arguments and reject assignment.",
             "None-returning formulas and assignments to flag-carrying cells are outside the generated domain; per-case enumeration of assignments is exhaustive, cases are sampled"),
+    "C14": ("fault_enumeration",
+            "fault injection with a process-wide audit hook: every file-system event of write_model/read_model is a fault point in turn (exhaustive per case), plus consecutive-failure sequences, pickling faults and a file corruption sweep, over Hypothesis-generated models",
+            "For generated models, both container formats and 0-4 earlier good saves, the save (or load) is replayed from a restored "
+            "snapshot with an OSError injected at the k-th audited file-system event for every k; sequences of failed saves, "
+            "values whose pickling/unpickling fails on demand and deletion/truncation/garbling of every saved file are also "
+            "exercised. After each attempt the newest completely written version must be at the path or _BAK1, backups ordered, "
+            "a zip destination complete, the session's serializing flags reset and the model registry unchanged.",
+            "faults are exceptions at audited operation boundaries (no torn writes); the 'r+' re-open of the staging zip is not faulted because zipfile itself swallows that error"),
     "C16": ("exploration",
             "property-based testing (Hypothesis) of generate_actions/execute_actions over generated DAGs x target lists x all step sizes, against the reference closure/call order and the execution log",
             "For generated DAG models, target lists (dependent targets in either order, input targets) and every step size from 1 to "
